@@ -56,7 +56,7 @@ func judge(t vstat.Fataler, fx *fixture, d []byte, class string, obs observation
 			hok = &obs.calls[0].ok
 		}
 		if kind, detail := checkResponse(obs.responses[0], d, fx.secret, hok); kind != "" {
-			return vstat.Fail(t, sigBase+"response/"+kind, "%s; response=%s; %s", detail, hx(obs.responses[0]), desc()), a, acted
+			return vstat.Fail(t, sigBase+"response/"+kind+handlerShape(obs.calls), "%s; response=%s; %s", detail, hx(obs.responses[0]), desc()), a, acted
 		}
 		if fx.mode == modeProcessor && hok != nil && *hok && obs.changes == 0 {
 			// processor wiring sanity: an ACK means the session layer was told (not part of the statement; harness self-check)
@@ -83,9 +83,35 @@ func judge(t vstat.Fataler, fx *fixture, d []byte, class string, obs observation
 		hok = &obs.sCalls[0].ok
 	}
 	if kind, detail := checkResponse(obs.sResp, s, fx.secret, hok); kind != "" {
-		return vstat.Fail(t, sigBase+"response/"+kind, "authentic sentinel: %s; %s", detail, sdesc()), a, acted
+		return vstat.Fail(t, sigBase+"response/"+kind+handlerShape(obs.sCalls), "authentic sentinel: %s; %s", detail, sdesc()), a, acted
 	}
 	return false, a, acted
+}
+
+// handlerShape is the handler-outcome part of a response signature: "" for the ordinary shape (a
+// Reply-Message one attribute can carry, or none), "/reply-message>253" when the handler returned more text.
+func handlerShape(cs []call) string {
+	if len(cs) == 1 && cs[0].msgLen > 253 {
+		return "/" + msgShape(cs[0].msgLen)
+	}
+	return ""
+}
+
+// respClasses: evidence only (the statement does not speak about response attributes): is the attribute
+// region of the response a well-formed TLV sequence, is the response within the RADIUS maximum.
+func respClasses(obs observation) []string {
+	out := callClasses(append(append([]call(nil), obs.calls...), obs.sCalls...))
+	for _, r := range append(append([][]byte(nil), obs.responses...), obs.sResp) {
+		if len(r) >= hdrLen {
+			if tlvState(r[hdrLen:]) == 2 {
+				out = append(out, "response:malformed-tlv")
+			}
+			if len(r) > radiusMaxLen {
+				out = append(out, "response:oversize")
+			}
+		}
+	}
+	return out
 }
 
 func record(fx *fixture, m mutant, a analysis, acted, dead bool, extra ...string) {
@@ -173,6 +199,7 @@ func runClasses(t *testing.T, classes []string, mode handlerMode, recovered bool
 			for _, s := range sessionAlphabet[:3] {
 				fx.sessions[s] = true
 			}
+			fx.sessions[longKnownSession] = true
 		}
 		b := genBase(rt, secret, minAttrs, md == modeProcessor)
 		k := rapid.IntRange(1, 4).Draw(rt, "mutants")
@@ -183,7 +210,7 @@ func runClasses(t *testing.T, classes []string, mode handlerMode, recovered bool
 				// sequence-dependent shapes: the listener's receive buffer still holds an earlier, longer datagram
 				obs := fx.exchange(b.pkt, genResult(rt))
 				dead, a, acted := judge(rt, fx, b.pkt, "valid", obs)
-				record(fx, mutant{d: b.pkt, class: "valid"}, a, acted, dead)
+				record(fx, mutant{d: b.pkt, class: "valid"}, a, acted, dead, respClasses(obs)...)
 				if dead {
 					return
 				}
@@ -207,7 +234,7 @@ func runClasses(t *testing.T, classes []string, mode handlerMode, recovered bool
 			obs := fx.exchange(m.d, res)
 			dead, a, acted := judge(rt, fx, m.d, m.class, obs)
 			intentCheck(rt, fx, m, a)
-			record(fx, m, a, acted, dead)
+			record(fx, m, a, acted, dead, respClasses(obs)...)
 			if dead {
 				return
 			}
@@ -425,6 +452,7 @@ func TestPropForgeryBattery(t *testing.T) {
 			for _, s := range sessionAlphabet[:3] {
 				fx.sessions[s] = true
 			}
+			fx.sessions[longKnownSession] = true
 		}
 		code := rapid.SampledFrom([]byte{codeCoARequest, codeDisconnectRequest}).Draw(rt, "code")
 		id := rapid.Byte().Draw(rt, "id")
